@@ -1,12 +1,33 @@
 /-
   C05 — end-to-end secure frame exchange. The sender / receiver pipelines are `LW.sender` / `LW.receiver`
   (LW/Model/Exchange.lean), compositions of the functions whose properties are C01 (codec), C02 (MIC), C03 (encryption)
-  and C07 (command streams).
+  and C07 (command streams).  C05_exchange is the composed statement (proof: LW/Proofs/Exchange.lean).
 -/
 import LW.Model.Exchange
 import LW.Proofs.CryptoSpec
+import LW.Proofs.Exchange
 namespace LW.C05
-open LW Outcome
+open LW Outcome ExchangeProofs
+
+/-- First clause, composed: ANY data frame (uplink or downlink, confirmed or not: MType 2..5) whose FOpts are MAC commands
+`fo` (at most 15 bytes encoded) and whose FRMPayload is a `Content` — absent, MAC commands on port 0, or application bytes on
+a port ≠ 0 — that the sender pipeline (encrypt FRMPayload → 1.1: encrypt FOpts → set MIC → marshal) turns into bytes `bs`
+is ACCEPTED by the receiver pipeline (unmarshal → restore the 32-bit counter → validate MIC → 1.1: decrypt / 1.0: decode
+FOpts → decrypt FRMPayload) holding the same keys, parameters and the upper 16 counter bits, and the receiver ends up with
+exactly the sender's commands (`normItems`: DeviceTimeAns rounded to 1/256 s, as C07 states), payload bytes, port, DevAddr,
+full 32-bit FCnt and FCtrl flags (FPending / ClassB share one bit on the wire: `rxCtrl`).  Both MAC versions (`lp.ver`), any
+lawful block cipher, any keys, any registry (any history of proprietary registrations under which the commands are framed).
+Composition of C01 (codec), C02 (MIC = spec), C03 (involutions) and C07 (streams). -/
+theorem C05_exchange (E : BlockCipher) (hE : E.Lawful) (reg : Registry) (lp : LinkParams) (ek ak : Bytes) (mt mj : Byte) (mic0 : Bytes)
+    (addr fcnt : BitVec 32) (ctrl : FCtrl) (fo : List MacCmd) (c : Content) (bs : Bytes)
+    (hmt : mt = 2#8 ∨ mt = 3#8 ∨ mt = 4#8 ∨ mt = 5#8) (hmj : mj.toNat ≤ 3)
+    (hwf : ∀ x ∈ fo, Stream.WellFramed reg (isUplinkMType mt) x) (hc : c.OK reg (isUplinkMType mt))
+    (hfol : ∀ macB, encodeCmds fo = ok macB → macB.length ≤ 15)
+    (hs : sender E lp ek ak { mtype := mt, major := mj, mic := mic0, payload := some (.mac { devAddr := addr, fCtrl := ctrl, fCnt := fcnt, fOpts := cmdItems fo } c.fPort c.frm) } = ok bs) :
+    ∃ mic macB, encodeCmds fo = ok macB ∧ macB.length ≤ 15 ∧
+      receiver E reg lp ek ak (fcnt &&& 0xffff0000#32) bs =
+        .accepted { mtype := mt, major := mj, mic := mic, payload := some (.mac { devAddr := addr, fCtrl := rxCtrl ctrl macB.length, fCnt := fcnt, fOpts := normItems fo } c.fPort c.rx) } :=
+  exchange E hE reg lp ek ak mt mj mic0 addr fcnt ctrl fo c bs hmt hmj hwf hc hfol hs
 
 /-- Tamper clause: for ANY received bytes and ANY receiver parameters, a data frame is accepted exactly when it carries the
 specification's MIC for those parameters and the receiver's 32-bit counter (uplink shown; the MIC is over the re-serialised
@@ -27,5 +48,16 @@ theorem C05_reject_iff_down (E : BlockCipher) (lp : LinkParams) (q : PHY) (h : F
 theorem C05_frm_recovered (E : BlockCipher) (hE : E.Lawful) (key : Bytes) (up : Bool) (addr fcnt : BitVec 32) (data : Bytes) :
     encryptFRMPayload E key up addr fcnt (encryptFRMPayload E key up addr fcnt data) = data := by
   rw [CryptoSpec.frm_spec E hE, CryptoSpec.frm_spec E hE]; exact CryptoSpec.cryptFRM_invol E hE key up addr fcnt data
+
+/-! non-vacuity: a toy lawful cipher, an unconfirmed uplink with LinkCheckReq in FOpts and three application bytes on port 10,
+LoRaWAN 1.1, counter 0x12345: the sender succeeds, so the hypotheses of C05_exchange are met -/
+def toyCipher : BlockCipher := { enc := fun _ b => (b ++ zeros 16).take 16, dec := fun _ b => (b ++ zeros 16).take 16 }
+theorem toy_lawful : toyCipher.Lawful := by
+  refine ⟨?_, ?_, ?_, ?_⟩ <;> intros <;> simp_all [toyCipher, zeros]
+example : (sender toyCipher { ver := 1, conf := 0, txDr := 0, txCh := 0, fKey := zeros 16, sKey := zeros 16 } (zeros 16) (zeros 16)
+    { mtype := 2, major := 0, mic := [0, 0, 0, 0], payload := some (.mac { devAddr := 0x01020304#32, fCtrl := {}, fCnt := 0x12345#32, fOpts := cmdItems [{ cid := 2, payload := none }] } (Content.app 10 [1, 2, 3]).fPort (Content.app 10 [1, 2, 3]).frm) }).isOk = true := by
+  decide
+example : ∀ x ∈ [({ cid := 2, payload := none } : MacCmd)], Stream.WellFramed [] true x := by
+  intro x hx; simp at hx; subst hx; rfl
 
 end LW.C05
